@@ -9,6 +9,7 @@
                     L [A 0; B bytes]  a receive returned these bytes        L [A 1]  it raised CancelledError
                     L [A 2; A 0|1]    it raised the loop's exception | ECONNRESET    L [A 3]  RuntimeError (busy)
                     L [A 4; A n; A room]  read event: n bytes accepted into a buffer of `room` bytes
+   input  = L [A 2; A fixed; L labels; scenario]     recorded trace of a higher layer, see run_recorded
 *)
 From EN Require Import Lib.Bytes Lib.Sx Conc.SockReader Gen.ParamsC10.
 
@@ -43,11 +44,24 @@ Definition run_lts (fixed : bool) (ls : list label) : sx :=
   let '(s, os) := exec fixed init ls in
   L [L (map enc_obs os); B (delivered s); B (returned s)].
 
+(* mode 2: a label trace RECORDED from a run of the real endpoint / server receiver / TLS transport on the ordinary
+   event loop; only the significant observations are compared, plus the harness' own verdict that the layer above
+   turned exactly the returned bytes into packets (always 1 in the model). *)
+Definition significant (o : obs) : bool := match o with ONone | ODisabled => false | _ => true end.
+
+Definition run_recorded (fixed : bool) (ls : list label) : sx :=
+  let '(s, os) := exec fixed init ls in
+  L [L (map enc_obs (filter significant os)); B (delivered s); B (returned s); A 1].
+
 Definition run (i : sx) : sx :=
   match i with
   | L (A 0%Z :: fx :: lbls :: _) =>
       do fixed <- (match fx with A 2%Z => Some repo_fixed | _ => as_bool fx end);
       do ls <- as_list_of dec_label lbls;
       run_lts fixed ls
+  | L (A 2%Z :: fx :: lbls :: _) =>
+      do fixed <- (match fx with A 2%Z => Some repo_fixed | _ => as_bool fx end);
+      do ls <- as_list_of dec_label lbls;
+      run_recorded fixed ls
   | _ => bad_input
   end.
